@@ -33,6 +33,7 @@ trusted('np.copysign(1, x) = +1 if x >= 0 else -1 (x = -0.0 outside the model)')
 trusted('np.isclose(x, 0.0) <=> |x| <= 1e-8 (numpy default atol, b = 0)')
 trusted('np.isnan reads the NaN flag of a data-handler price; arithmetic on a possibly-NaN value is a definedness obligation')
 trusted('builtin round(x) / round(x, 2): uninterpreted R0/R2 with |R0(x)-x| <= 1/2, R0 integer-valued, |R2(x)-x| <= 0.005, both odd functions')
+trusted('sum() over a finite map = SUM(dom, g) with the definitional unfolding SUM(empty) = 0, SUM(D + {k}, g) = SUM(D, g) + g(k) for k not in D, instantiated by the engine')
 trusted('machine floating point is treated as mathematical real arithmetic; Python int as Z')
 
 
